@@ -35,7 +35,11 @@ const root = "/tmp/c17"
 
 // variant v (0..7): Check(document:1#bK@user:anne) is true iff bit K of v is set, given the tuple
 // document:1#viewer@user:anne.
-func variantDSL(v int, deco int) string {
+func variantDSL(v int, deco int) string { return variantDSLc(v, deco, false) }
+
+// withCond: viewer also accepts `user with cond1`, cond1 being defined (a valid use of a condition
+// on a plain type restriction)
+func variantDSLc(v int, deco int, withCond bool) string {
 	pick := func(k int) string {
 		if v&(1<<k) != 0 {
 			return "viewer"
@@ -47,8 +51,15 @@ func variantDSL(v int, deco int) string {
 	for i := 0; i < deco; i++ {
 		fmt.Fprintf(&sb, "type extra%d\n  relations\n    define member: [user]\n", i)
 	}
-	sb.WriteString("type document\n  relations\n    define viewer: [user]\n    define editor: [user]\n")
+	if withCond {
+		sb.WriteString("type document\n  relations\n    define viewer: [user, user with cond1]\n    define editor: [user]\n")
+	} else {
+		sb.WriteString("type document\n  relations\n    define viewer: [user]\n    define editor: [user]\n")
+	}
 	fmt.Fprintf(&sb, "    define b0: %s\n    define b1: %s\n    define b2: %s\n", pick(0), pick(1), pick(2))
+	if withCond {
+		sb.WriteString("condition cond1(x: int) {\n  x < 100\n}\n")
+	}
 	return sb.String()
 }
 
@@ -56,10 +67,14 @@ type body struct {
 	m       *openfgav1.AuthorizationModel // schema version, type definitions, conditions (id empty)
 	variant int                           // 0..7, 9 = not a probe model
 	kind    string
+	cvalid  int // validity BY CONSTRUCTION of the generator: 1 valid, 0 invalid, -1 not decided by construction
 }
 
 func validBody(r *rec.Rand, v int) body {
-	return body{m: sh.Model(variantDSL(v, r.Intn(4))), variant: v, kind: "valid"}
+	if r.Chance(1, 4) {
+		return body{m: sh.Model(variantDSLc(v, r.Intn(3), true)), variant: v, kind: "valid_with_condition", cvalid: 1}
+	}
+	return body{m: sh.Model(variantDSL(v, r.Intn(4))), variant: v, kind: "valid", cvalid: 1}
 }
 
 func cu(rel string) *openfgav1.Userset {
@@ -115,6 +130,14 @@ func mutatedBody(r *rec.Rand, w *rec.Writer) body {
 		doc.Relations["b2"] = &openfgav1.Userset{}
 	}
 	b.kind = fmt.Sprintf("mut%d", k)
+	switch k {
+	case 0, 1, 2, 3, 4, 5, 11:
+		b.cvalid = 0 // each of these breaks a rule of the model language
+	case 8, 9, 10:
+		b.cvalid = 1 // only large
+	default:
+		b.cvalid = -1 // rejected by request validation before the validator is asked
+	}
 	w.Stat("gen_body_"+b.kind, 1)
 	return b
 }
@@ -132,14 +155,23 @@ func encContent(m *openfgav1.AuthorizationModel) []byte {
 	return e
 }
 
-// recBody: ( enc wf valid ntypes size variant )
-func recBody(b body) rec.V {
+// recBody: ( enc wf valid ntypes size variant ).  `valid` is the generator's verdict by
+// construction where it has one (so that a validator that lets a broken model through shows up
+// as a difference), the real validator's verdict otherwise; the second result says whether the
+// two verdicts differ.
+func recBody(b body) (rec.V, bool) {
 	withID := proto.Clone(b.m).(*openfgav1.AuthorizationModel)
 	withID.Id = dummyID
 	req := &openfgav1.WriteAuthorizationModelRequest{StoreId: dummyID, SchemaVersion: b.m.GetSchemaVersion(), TypeDefinitions: b.m.GetTypeDefinitions(), Conditions: b.m.GetConditions()}
 	wf := req.Validate() == nil
 	_, err := typesystem.NewAndValidate(context.Background(), withID)
-	return rec.L(rec.B(encContent(b.m)), rec.Bool(wf), rec.Bool(err == nil), rec.I(len(b.m.GetTypeDefinitions())), rec.I(proto.Size(withID)), rec.I(b.variant))
+	valid := err == nil
+	mismatch := false
+	if b.cvalid >= 0 {
+		mismatch = valid != (b.cvalid == 1)
+		valid = b.cvalid == 1
+	}
+	return rec.L(rec.B(encContent(b.m)), rec.Bool(wf), rec.Bool(valid), rec.I(len(b.m.GetTypeDefinitions())), rec.I(proto.Size(withID)), rec.I(b.variant)), mismatch
 }
 
 // ---- header capture -----------------------------------------------------------------------------
@@ -163,41 +195,13 @@ func withHdr() (context.Context, *hdrRec) {
 	return context.WithValue(context.Background(), hdrKey{}, h), h
 }
 
-// ---- gate around FindLatestAuthorizationModel -----------------------------------------------------
-
-type gateDS struct {
-	storage.OpenFGADatastore
-	mu      sync.Mutex
-	armed   string
-	calls   int
-	entered chan struct{}
-	release chan struct{}
-}
-
-func (g *gateDS) FindLatestAuthorizationModel(ctx context.Context, store string) (*openfgav1.AuthorizationModel, error) {
-	m, err := g.OpenFGADatastore.FindLatestAuthorizationModel(ctx, store)
-	g.mu.Lock()
-	block := false
-	if g.armed == store {
-		g.calls++
-		block = g.calls == 1
-	}
-	entered, release := g.entered, g.release
-	g.mu.Unlock()
-	if block {
-		close(entered)
-		<-release
-	}
-	return m, err
-}
-
 // ---- environments ---------------------------------------------------------------------------------
 
 type env struct {
 	backend string
 	combo   int
 	be      *sh.Backend
-	gate    *gateDS
+	gate    *sh.GateDS
 	srv     *server.Server
 }
 
@@ -349,7 +353,11 @@ func serverScenario(w *rec.Writer, e *env, d desc) {
 		} else {
 			b = mutatedBody(r, w)
 		}
-		rb := recBody(b)
+		rb, mismatch := recBody(b)
+		if mismatch {
+			w.PropFail("typesystem.NewAndValidate disagrees with the construction of the model (a model from the invalid mutation stream validates, or a valid one does not)",
+				map[string]any{"desc": d, "kind": b.kind})
+		}
 		res, err := e.srv.WriteAuthorizationModel(ctx, &openfgav1.WriteAuthorizationModelRequest{
 			StoreId: s, SchemaVersion: b.m.GetSchemaVersion(), TypeDefinitions: b.m.GetTypeDefinitions(), Conditions: b.m.GetConditions()})
 		cls := sh.ErrClass(err)
@@ -377,9 +385,86 @@ func serverScenario(w *rec.Writer, e *env, d desc) {
 			doProbe(s, "")
 		}
 	}
+	doList := func(s string) {
+		res, err := e.srv.ReadAuthorizationModels(ctx, &openfgav1.ReadAuthorizationModelsRequest{StoreId: s, PageSize: wrapperspb.Int32(100)})
+		cls := sh.ErrClass(err)
+		var got []string
+		for _, m := range res.GetAuthorizationModels() {
+			got = append(got, m.GetId())
+		}
+		if err == nil && res.GetContinuationToken() != "" {
+			w.PropFail("ReadAuthorizationModels returned a continuation token for fewer than 100 models", map[string]any{"desc": d})
+		}
+		ops = append(ops, func(ids *sh.IDMap) rec.V {
+			c := make([]string, len(got))
+			for i, g := range got {
+				c[i] = ids.Canon(g)
+			}
+			return rec.L(rec.I(2), rec.S(ids.Canon(s)), rec.I(cls), rec.LS(c))
+		})
+		w.Stat("op_list", 1)
+	}
+	// several model writes back to back (no work between the requests, so that some fall into the
+	// same millisecond): the ids must still increase and the last one must be the latest
+	bursts := 0
+	doBurst := func() {
+		s := stores[r.Intn(3)]
+		n := r.Range(6, 12)
+		bodies := make([]body, n)
+		recs := make([]rec.V, n)
+		last := lastVariant[s] - 1
+		for i := range bodies {
+			v := r.Intn(8)
+			for v == last {
+				v = r.Intn(8)
+			}
+			last = v
+			bodies[i] = body{m: sh.Model(variantDSL(v, 0)), variant: v, kind: "valid", cvalid: 1}
+			recs[i], _ = recBody(bodies[i])
+		}
+		reqs := make([]*openfgav1.WriteAuthorizationModelRequest, n)
+		for i, b := range bodies {
+			reqs[i] = &openfgav1.WriteAuthorizationModelRequest{StoreId: s, SchemaVersion: "1.1", TypeDefinitions: b.m.GetTypeDefinitions()}
+		}
+		got := make([]string, n)
+		t0 := time.Now()
+		for i := range reqs {
+			res, err := e.srv.WriteAuthorizationModel(ctx, reqs[i])
+			if err != nil {
+				panic(err)
+			}
+			got[i] = res.GetAuthorizationModelId()
+		}
+		if time.Since(t0) < time.Duration(n)*time.Millisecond {
+			w.Stat("burst_faster_than_1ms_per_write", 1)
+		}
+		for i := range got {
+			id, rb := got[i], recs[i]
+			modelIDs = append(modelIDs, id)
+			modelStore[id] = s
+			ops = append(ops, func(ids *sh.IDMap) rec.V {
+				return rec.L(rec.I(0), rec.S(ids.Canon(s)), rb, rec.I(0), rec.S(ids.Canon(id)))
+			})
+		}
+		lastVariant[s] = bodies[n-1].variant + 1
+		if !hasTuple[s] {
+			if _, err := e.srv.Write(ctx, &openfgav1.WriteRequest{StoreId: s, Writes: &openfgav1.WriteRequestWrites{
+				TupleKeys: []*openfgav1.TupleKey{{Object: "document:1", Relation: "viewer", User: "user:anne"}}}}); err != nil {
+				panic(err)
+			}
+			hasTuple[s] = true
+		}
+		w.Stat("op_write_burst", 1)
+		w.Stat("op_write_class_0", n)
+		doList(s)
+		doProbe(s, "")
+	}
 	doProbe(stores[0], "")
 	for i := 0; i < d.Ops; i++ {
 		switch p := r.Intn(20); {
+		case p == 0 && bursts < 2:
+			bursts++
+			doBurst()
 		case p < 8:
 			doWrite()
 		case p < 11:
@@ -398,24 +483,7 @@ func serverScenario(w *rec.Writer, e *env, d desc) {
 			})
 			w.Stat(fmt.Sprintf("op_read_class_%d", cls), 1)
 		case p < 13:
-			s := pickStore()
-			res, err := e.srv.ReadAuthorizationModels(ctx, &openfgav1.ReadAuthorizationModelsRequest{StoreId: s, PageSize: wrapperspb.Int32(100)})
-			cls := sh.ErrClass(err)
-			var got []string
-			for _, m := range res.GetAuthorizationModels() {
-				got = append(got, m.GetId())
-			}
-			if err == nil && res.GetContinuationToken() != "" {
-				w.PropFail("ReadAuthorizationModels returned a continuation token for fewer than 100 models", map[string]any{"desc": d})
-			}
-			ops = append(ops, func(ids *sh.IDMap) rec.V {
-				c := make([]string, len(got))
-				for i, g := range got {
-					c[i] = ids.Canon(g)
-				}
-				return rec.L(rec.I(2), rec.S(ids.Canon(s)), rec.I(cls), rec.LS(c))
-			})
-			w.Stat("op_list", 1)
+			doList(pickStore())
 		default:
 			s := pickStore()
 			if r.Chance(7, 10) {
@@ -475,7 +543,8 @@ func rawScenario(w *rec.Writer, e *env, d desc) {
 			if err != nil {
 				cls = 1
 			}
-			ops = append(ops, rec.L(rec.I(0), rec.S(s), rec.S(id), recBody(b), rec.I(cls)))
+			rb, _ := recBody(b)
+			ops = append(ops, rec.L(rec.I(0), rec.S(s), rec.S(id), rb, rec.I(cls)))
 			w.Stat(fmt.Sprintf("raw_write_class_%d", cls), 1)
 		case p < 6:
 			id := rec.Pick(r, rawIDs)
@@ -540,7 +609,7 @@ func concurrentScenario(w *rec.Writer, e *env, d desc) {
 	writeModel := func(v int) string {
 		b := validBody(r, v)
 		res, err := e.srv.WriteAuthorizationModel(ctx, &openfgav1.WriteAuthorizationModelRequest{
-			StoreId: s, SchemaVersion: "1.1", TypeDefinitions: b.m.GetTypeDefinitions()})
+			StoreId: s, SchemaVersion: "1.1", TypeDefinitions: b.m.GetTypeDefinitions(), Conditions: b.m.GetConditions()})
 		if err != nil {
 			panic(err)
 		}
@@ -552,10 +621,7 @@ func concurrentScenario(w *rec.Writer, e *env, d desc) {
 		panic(err)
 	}
 	g := e.gate
-	g.mu.Lock()
-	g.armed, g.calls = s, 0
-	g.entered, g.release = make(chan struct{}), make(chan struct{})
-	g.mu.Unlock()
+	g.Arm(s)
 	type result struct {
 		allowed bool
 		cls     int
@@ -566,21 +632,16 @@ func concurrentScenario(w *rec.Writer, e *env, d desc) {
 		a, c, id := checkOnce(e, s, "", "b0")
 		r1c <- result{a, c, id}
 	}()
-	<-g.entered                 // request 1 is inside the latest-model lookup (the datastore has answered m1)
+	<-g.Entered()               // request 1 is inside the latest-model lookup (the datastore has answered m1)
 	m2 := writeModel(1)         // b0 true; the write has completed before request 2 starts
 	go func() {
 		a, c, id := checkOnce(e, s, "", "b0")
 		r2c <- result{a, c, id}
 	}()
 	time.Sleep(40 * time.Millisecond)
-	g.mu.Lock()
-	joined := g.calls == 1 // request 2 did not reach the datastore: it waits on the call in flight
-	g.mu.Unlock()
-	close(g.release)
+	joined := g.Calls(s) == 1 // request 2 did not reach the datastore: it waits on the call in flight
+	g.Release()
 	r1, r2 := <-r1c, <-r2c
-	g.mu.Lock()
-	g.armed = ""
-	g.mu.Unlock()
 	served := func(x result) int { // 1 = m1, 2 = m2, 0 = error
 		if x.cls != 0 {
 			return 0
@@ -611,6 +672,88 @@ func concurrentScenario(w *rec.Writer, e *env, d desc) {
 	w.Stat("scenario_concurrent_"+d.Backend+"_"+comboNames[d.Combo], 1)
 }
 
+// concurrent2Scenario: the latest-model lookup of store A is held in flight while a model-less
+// request for store B arrives: B must be evaluated against B's latest model.
+func concurrent2Scenario(w *rec.Writer, e *env, d desc) {
+	ctx := sh.Ctx
+	r := rec.NewRand(d.Seed)
+	type st struct{ id, model string }
+	var ss [2]st
+	for i := range ss {
+		res, err := e.srv.CreateStore(ctx, &openfgav1.CreateStoreRequest{Name: "shared-name"})
+		if err != nil {
+			panic(err)
+		}
+		ss[i].id = res.GetId()
+		b := validBody(r, i) // A: b0 false, B: b0 true
+		mres, err := e.srv.WriteAuthorizationModel(ctx, &openfgav1.WriteAuthorizationModelRequest{StoreId: ss[i].id, SchemaVersion: "1.1", TypeDefinitions: b.m.GetTypeDefinitions(), Conditions: b.m.GetConditions()})
+		if err != nil {
+			panic(err)
+		}
+		ss[i].model = mres.GetAuthorizationModelId()
+		if _, err := e.srv.Write(ctx, &openfgav1.WriteRequest{StoreId: ss[i].id, Writes: &openfgav1.WriteRequestWrites{
+			TupleKeys: []*openfgav1.TupleKey{{Object: "document:1", Relation: "viewer", User: "user:anne"}}}}); err != nil {
+			panic(err)
+		}
+	}
+	g := e.gate
+	g.Arm(ss[0].id)
+	type result struct {
+		allowed bool
+		cls     int
+		id      string
+	}
+	r1c, r2c := make(chan result, 1), make(chan result, 1)
+	go func() {
+		a, c, id := checkOnce(e, ss[0].id, "", "b0")
+		r1c <- result{a, c, id}
+	}()
+	<-g.Entered() // A's lookup is in flight
+	go func() {
+		a, c, id := checkOnce(e, ss[1].id, "", "b0")
+		r2c <- result{a, c, id}
+	}()
+	var r2 result
+	doneBefore := false
+	select {
+	case r2 = <-r2c:
+		doneBefore = true
+	case <-time.After(1500 * time.Millisecond):
+	}
+	g.Release()
+	r1 := <-r1c
+	if !doneBefore {
+		r2 = <-r2c
+	}
+	// 1 = the model of the request's own store, 2 = the other store's model, 0 = error
+	served := func(x result, own, other string, ownB0 bool) int {
+		if x.cls != 0 {
+			return 0
+		}
+		if x.id != "" {
+			switch x.id {
+			case own:
+				return 1
+			case other:
+				return 2
+			}
+			return 0
+		}
+		if x.allowed == ownB0 {
+			return 1
+		}
+		return 2
+	}
+	w.Case(d, rec.I(3), rec.I(bk(d)), rec.I(d.Combo), rec.Bool(doneBefore),
+		rec.I(served(r1, ss[0].model, ss[1].model, false)), rec.I(served(r2, ss[1].model, ss[0].model, true)))
+	if doneBefore {
+		w.Stat("concurrent2_other_store_not_blocked", 1)
+	} else {
+		w.Stat("concurrent2_other_store_waited_for_release", 1)
+	}
+	w.Stat("scenario_concurrent2_"+d.Backend+"_"+comboNames[d.Combo], 1)
+}
+
 func main() {
 	o := rec.ParseFlags()
 	w := rec.NewWriter(o.Out)
@@ -628,7 +771,7 @@ func main() {
 			panic(err)
 		}
 		e := &env{backend: kind, combo: combo, be: be}
-		e.gate = &gateDS{OpenFGADatastore: be.DS}
+		e.gate = sh.NewGate(be.DS)
 		be.Disown() // the server's Close closes the datastore
 		all := append([]server.OpenFGAServiceV1Option{server.WithDatastore(e.gate)}, comboOpts(combo)...)
 		e.srv = server.MustNewServerWithOpts(all...)
@@ -655,6 +798,8 @@ func main() {
 			rawScenario(w, e, d)
 		case "concurrent":
 			concurrentScenario(w, e, d)
+		case "concurrent2":
+			concurrent2Scenario(w, e, d)
 		}
 	}
 	if o.Replay != "" {
@@ -685,6 +830,10 @@ func main() {
 	// the concurrent scenario, on both backends, v1 path with and without caches
 	for i, bkd := range []string{"memory", "sqlite", "memory"} {
 		run(desc{Seed: r.Uint64(), Backend: bkd, Layer: "concurrent", Combo: i % 2})
+	}
+	// two stores: A's lookup in flight while a model-less request for B arrives
+	for i, bkd := range []string{"memory", "sqlite", "sqlite", "memory"} {
+		run(desc{Seed: r.Uint64(), Backend: bkd, Layer: "concurrent2", Combo: i % 2})
 	}
 	for i := 0; i < o.N; i++ {
 		d := desc{Seed: r.Uint64(), Ops: r.Range(20, 60), Backend: "memory", Combo: r.Intn(4)}
